@@ -946,3 +946,19 @@ pub fn c10_replay(subject: &dyn Subject, case: &StreamCase, v: &Value) -> (bool,
     let bad = !matches!(e2, End::Clean) || p2 > bound || p2 > p1 + 64;
     (bad, format!("{} streaming '{}' (chunk {chunk}, {grain} bytes per read): {} bytes -> peak {p1} ({}); {} bytes -> peak {p2}, {items} items ({}); bound {bound}\n", subject.name(), case.label, n / 4, e1.short(), n, e2.short()))
 }
+
+
+/// C01 addendum: the parser's public convenience constructors must give the reference observation.
+pub fn c01_constructors(subject: &dyn Subject, docs: &[Doc], via: &dyn Fn(&[u8]) -> Vec<(&'static str, Vec<String>, End)>, report: &mut Report) {
+    for d in docs {
+        let reference = run_spec(subject, &d.bytes, &Spec::oneshot());
+        for (name, items, end) in via(&d.bytes) {
+            report.evaluations += 1;
+            report.transitions += 1;
+            if !(items == reference.items && end.same_outcome(&reference.end)) {
+                let key = format!("{}/constructor/{name}", family_of(subject));
+                report.violation(key, format!("{} built with {name} on {:?}: {} item(s) then {}; reference {}", subject.name(), show(&d.bytes), items.len(), end.short(), obs(&reference)), replay_json("C01", subject, &d.bytes, &Spec::oneshot()), d.bytes.len() as u64);
+            }
+        }
+    }
+}
